@@ -1,4 +1,5 @@
 import DdsProofs.EvalLemmas
+import DdsProofs.Memo
 /-!
 # C10 — a failing user function is never cached and leaves dds and the store clean
 
@@ -7,7 +8,10 @@ For **every** world, store state and request:
   raised at any depth — the path table of the store is exactly what it was;
 * `failure_propagates`: the error that comes out is the one the user function raised (same kind, same token);
 * `failing_call_not_stored`: a kept call whose function fails stores nothing under its key, and the failure
-  is passed on unchanged to the functions waiting for it.
+  is passed on unchanged to the functions waiting for it;
+* `failure_is_plain` (load-free fragment, over a `Universe`, after any history): the exception that comes out of an
+  evaluation is exactly the exception plain execution of the current code raises — a failure is never replaced by a
+  stored result and a stored result never by a failure.
 -/
 namespace Dds.C10
 open Dds
@@ -57,5 +61,17 @@ theorem failing_call_not_stored (requested : List (String × Sg)) (rec : RunRec)
     (hn : sgGet st.store.blobs key = none) (hr : rec st g env = (.error e, st')) :
     keepExec requested rec st path g env = (.error e, st') := by
   simp [keepExec, hk, hn, hr]
+
+/-- after any history, an evaluation fails **iff** plain execution of the current code fails, with the same exception -/
+theorem failure_is_plain (U : Universe) (m x : Nat) (noop : Bool) (hist : List HStep) (hok : ∀ s ∈ hist, s.ok U x)
+    (W : World) (rq : Request) (hW : U.world W) (hx : W.extVersion = x) (hrq : U.request rq)
+    (fn : Fn) (env : Env) (fis : FIS) (paths : List (String × Sg))
+    (ha : analysisPhase m W (runHistory m { noop := noop } hist) rq = .ok (fn, env, fis, paths))
+    (hs : Stage.eval ∈ rq.stages) (p : PSt) (e : XErr) :
+    (evalStep m W (runHistory m { noop := noop } hist) rq).value = .error e ↔ (plainFn W W.fuel p fn env).1 = .error e := by
+  rw [history_correct U m x noop hist hok W rq hW hx hrq fn env fis paths ha hs p]
+  cases (plainFn W W.fuel p fn env).1 with
+  | ok v => simp [Except.map]
+  | error e' => simp [Except.map]
 
 end Dds.C10
